@@ -501,8 +501,10 @@ func concGated(c concCase) concObs {
 
 func concFree(c concCase) concObs {
 	o := concObs{ID: c.ID, RunMode: "free"}
+	// the reference fingerprint comes from a twin environment: querying the real one before the goroutines start would
+	// be a first use of its own (and would warm whatever a first use warms)
+	o.FP0 = newConcEnv(c.Cat).fingerprint()
 	e := newConcEnv(c.Cat)
-	o.FP0 = e.fingerprint()
 	n := len(c.Workers)
 	outs := make([]Bytes, n)
 	start := make(chan struct{})
